@@ -196,6 +196,19 @@ def _s_expr(ch, p: Proto, cfg, avail, depth):
 
 
 def gen_protocol(ch, cfg: dict) -> Proto:
+    """Most specs are drawn from the *plain* class (see non_plain_features); a minority is wild."""
+    wild = ch.coin(cfg.get("wild_rate", 0.25), "spec", "wild-grammar")
+    p = None
+    for attempt in range(10):
+        p = _gen_protocol_once(ch, cfg)
+        feats = non_plain_features(p)
+        p.meta["non_plain"] = feats
+        if wild or not feats:
+            break
+    return p
+
+
+def _gen_protocol_once(ch, cfg: dict) -> Proto:
     p = Proto()
     cfg = dict(cfg)
     p.gen_cfg = cfg
@@ -479,3 +492,109 @@ def reuses_types(p: Proto) -> bool:
     for r in p.state_rules:
         walk(p.rules[r])
     return any(len(v) > 1 for v in pairs.values())
+
+
+def non_plain_features(p: Proto) -> list:
+    """Features that put a protocol grammar outside the *plain* class on which Fandango's forecaster
+    is expected to be exact.  (Outside it, several distinct forecaster/parser defects are known; the
+    harness names the feature it can establish structurally.)  Invisible messages are ignored, as
+    slicing removes them."""
+    feats: list = []
+
+    def nullable(n, seen=()) -> bool:
+        k = n[0]
+        if k == "nt":
+            if p.is_msg(n):
+                return False
+            if n[1] in seen or n[1] not in p.rules:
+                return False
+            return nullable(p.rules[n[1]], seen + (n[1],))
+        if k == "cat":
+            return all(nullable(x, seen) for x in n[1] if not p.is_invisible(x))
+        if k == "alt":
+            return any(nullable(x, seen) for x in n[1])
+        if k in ("star", "opt"):
+            return True
+        if k == "plus":
+            return nullable(n[1], seen)
+        if k == "rep":
+            return n[2] == 0 or nullable(n[1], seen)
+        return False
+
+    def first(n, seen=()) -> frozenset:
+        k = n[0]
+        if k == "nt":
+            if p.is_msg(n):
+                return frozenset() if p.is_invisible(n) else frozenset([(n[2], n[1])])
+            if n[1] in seen or n[1] not in p.rules:
+                return frozenset()
+            return first(p.rules[n[1]], seen + (n[1],))
+        if k == "cat":
+            out = set()
+            for x in n[1]:
+                if p.is_invisible(x):
+                    continue
+                out |= first(x, seen)
+                if not nullable(x):
+                    break
+            return frozenset(out)
+        if k == "alt":
+            out = set()
+            for x in n[1]:
+                out |= first(x, seen)
+            return frozenset(out)
+        return first(n[1], seen)
+
+    def starts_nullable(n) -> bool:
+        if n[0] == "cat":
+            items = [x for x in n[1] if not p.is_invisible(x)]
+            return bool(items) and nullable(items[0])
+        return nullable(n)
+
+    def walk(n):
+        k = n[0]
+        if k == "cat":
+            items = [x for x in n[1] if not p.is_invisible(x)]
+            for i, a in enumerate(items[:-1]):
+                if nullable(a):
+                    if nullable(items[i + 1]):
+                        feats.append("adjacent-nullable-items")
+                    rest_first = set()
+                    for b in items[i + 1 :]:
+                        rest_first |= first(b)
+                        if not nullable(b):
+                            break
+                    if first(a) & rest_first:
+                        feats.append("nullable-item-before-same-first-message")
+                elif a[0] in ("plus", "rep", "star"):
+                    rest_first = set()
+                    for b in items[i + 1 :]:
+                        rest_first |= first(b)
+                        if not nullable(b):
+                            break
+                    if first(a) & rest_first:
+                        feats.append("repetition-before-same-first-message")
+            for x in items:
+                walk(x)
+        elif k == "alt":
+            fs = [first(x) for x in n[1]]
+            for i in range(len(fs)):
+                for j in range(i + 1, len(fs)):
+                    if fs[i] & fs[j]:
+                        feats.append("alternatives-share-first-message")
+            if any(starts_nullable(x) for x in n[1]):
+                feats.append("alternative-branch-starts-nullable")
+            for x in n[1]:
+                walk(x)
+        elif k in ("star", "plus", "opt", "rep"):
+            walk(n[1])
+
+    for r in p.state_rules:
+        walk(p.rules[r])
+    if reuses_types(p):
+        feats.append("same-sender-type-reuse")
+    out = []
+    for f_ in feats:
+        if f_ not in out:
+            out.append(f_)
+    return out
